@@ -56,7 +56,9 @@ def relation(r: str, t: str) -> str:
 
 # packages whose NAMES are related although the packages are not: textual prefixes (a.b / a.bc) and
 # the google.* namespace the bundled well-known types live in
-SPECIAL_PACKAGES = ["ab", "a.ab", "a.ab.b", "a.a.ab", "google.rpc", "google.type.x", "google.a"]
+SPECIAL_PACKAGES = ["ab", "a.ab", "a.ab.b", "a.a.ab", "google.rpc", "google.type.x", "google.a",
+                    # segments that snake-casing would alter (versioned API packages)
+                    "a.v1beta1", "v2alpha"]
 SPECIAL_PARTNERS = ["", "a", "a.a", "a.b", "a.a.b"]
 
 
